@@ -3,6 +3,7 @@ import lark
 from hypothesis import strategies as st
 
 from ndn.app_support.light_versec import Checker, LvsModelError, SemanticError, compile_lvs
+from ndn.app_support.light_versec import binary as bny
 
 from .. import lvs_gen as G
 from ..core import Result, SubCheck
@@ -18,7 +19,8 @@ RULE = ('C11 schema generator biased to signing structure (chains of rules, alte
         'over as list / tuple / one-shot iterator / generator / URI / wire; rules optionally moved out of dependency order in the text. '
         'Oracle: reference signing relation (exists definition D matching the packet with bindings B, signer K listed in D, chain of K '
         'matching the key under initial bindings B with ALL of K\'s constraints evaluated); corollary check True => key matches some '
-        'rule. Both directions, direct checker and after save()/load(). Non-trivial = a shared named pattern constrained in the key '
+        'rule. Both directions, direct checker, after save()/load(), and on an equivalent model whose signer lists and edge lists are in '
+        'reverse order. Non-trivial = a shared named pattern constrained in the key '
         'rule and both answers occur among the pairs; distinct key = schema hash.')
 ASSUMPTIONS = [
     'same generator preconditions as C11',
@@ -37,6 +39,14 @@ def run_case(case):
     try:
         checker = Checker(compile_lvs(text), fns)
         loaded = Checker.load(checker.save(), fns)
+        # an equivalent model as another tool may have written it: the binary format prescribes no order for the signer ids of
+        # a node nor for its edges
+        m2 = bny.LvsModel.parse(checker.save())
+        for nd in m2.nodes:
+            nd.sign_cons = list(reversed(nd.sign_cons))
+            nd.v_edges = list(reversed(nd.v_edges))
+            nd.p_edges = list(reversed(nd.p_edges))
+        reordered = Checker(m2, fns)
     except SemanticError as e:
         if 'never occurs before' in str(e) or 'Loop detected' in str(e):
             r.discarded = True
@@ -65,7 +75,7 @@ def run_case(case):
             no += not want
             p2 = pkt + [digest] if (i + j) % 5 == 0 and pkt else pkt
             k2 = key + [digest] if (i + 2 * j) % 7 == 0 and key else key
-            for label, ck in (('direct', checker), ('loaded', loaded)):
+            for label, ck in (('direct', checker), ('loaded', loaded), ('reordered', reordered)):
                 try:
                     if label == 'direct':
                         # names are handed over in every legal form (list / tuple / one-shot iterator / generator / URI / wire)
